@@ -404,6 +404,7 @@ func main() {
 		run.Add("skipped_"+k, n)
 	}
 	tupDispatchPhase(vlib.SeedRand(run.Seed, "c04-tupdispatch"))
+	jsonDispatchPhase(vlib.SeedRand(run.Seed, "c04-jsondispatch"))
 	run.Finish()
 }
 
